@@ -688,7 +688,8 @@ def rand_eval_tree(rng, depth, calls=True, fancy=0.0):
         return ("K", "int", sub())
     if calls and r < 0.97:
         # the operand has type int (sizeof of a comparison / logical result is 1: not what the model's oracle knows)
-        return ("C", "sizeof", [("B", rng.choice(["+", "-", "*", "&", "|", "^"]), sub(), sub()) if rng.random() < 0.7 else ("V", rand_ident(rng, fancy))])
+        leaf = lambda: ("V", rand_ident(rng, fancy)) if rng.random() < 0.7 else ("N", rng.choice([1, 2, 3]))   # noqa: E731
+        return ("C", "sizeof", [("B", rng.choice(["+", "-", "*", "&", "|", "^"]), leaf(), leaf()) if rng.random() < 0.6 else ("V", rand_ident(rng, fancy))])
     return ("P", sub())
 
 
@@ -978,6 +979,19 @@ def run(rep):
     cq = common.coq_check_props(PROP)
     common.proof_coverage(rep, cq)
     proof_broken = not cq["ok"]
+    if proof_broken and str(cq.get("failed_theorem") or "").startswith("dependency C02/Properties_C02.v line"):
+        # the obligation that broke is in the property file itself: name it
+        try:
+            ln = int(str(cq["failed_theorem"]).split()[-1])
+            name = None
+            for l in open(os.path.join(common.COQ, PROP, "Properties_C02.v")).read().split("\n")[:ln]:
+                mm = re.match(r"\s*(?:Theorem|Corollary)\s+([A-Za-z0-9_']+)", l)
+                if mm:
+                    name = mm.group(1)
+            if name:
+                cq["failed_theorem"] = name
+        except (ValueError, OSError):
+            pass
     mark("coq")
     common.ensure_model(PROP)
     impl = common.build_impl("plain")
@@ -1211,6 +1225,9 @@ def run(rep):
         m["safe"] = ok
         if not ok:
             avoided[hazard_kind(next(q["text"] for q in (x, y, z) if not q["safe"]))] += 1
+    n0 = len(ev_meta)
+    ev_meta = [m for m in ev_meta if not ternary_typed_branch(m["tree"])]
+    avoided["evaluator: ?: with a cast/sizeof branch is 0 (same AST for all texts: not C02)"] = n0 - len(ev_meta)
     ev_meta = [m for m in ev_meta if m["safe"]]
     outs = run_eval_cases(impl, [(m["values"], m["texts"]) for m in ev_meta])
     ev_distinct_values = set()
@@ -1225,10 +1242,7 @@ def run(rep):
                                                     "impl": list(o), "expect": m["expect"]}))
             continue
         ev_distinct_values.add(o[0])
-        if ternary_typed_branch(m["tree"]):
-            m["no_oracle"] = True
-            avoided["evaluator-ternary-of-cast (not C02)"] = avoided.get("evaluator-ternary-of-cast (not C02)", 0) + 1
-        if not (o[0] == o[1] == o[2] and (m.get("no_oracle") or o[0] == str(m["expect"]))):
+        if not (o[0] == o[1] == o[2] == str(m["expect"])):
             violations.append(("eval", m["tree"], {"origin": m["origin"], "texts": m["texts"], "values": m["values"],
                                                     "impl": o, "expect": m["expect"]}))
     rep.coverage["evaluation_runs"] = len(ev_meta)
@@ -1244,7 +1258,7 @@ def run(rep):
                             "println": ev_meta[k]["texts"], "printed": outs[k], "model_value": ev_meta[k]["expect"]})
 
     # the same value observed in other expression contexts: initialiser, condition, call argument, array index
-    ctx_meta = [m for m in ev_meta if m["origin"] in ("random-eval", "ident-eval") and not m.get("no_oracle")][::(4 if quick else 2)]
+    ctx_meta = [m for m in ev_meta if m["origin"] in ("random-eval", "ident-eval")][::(4 if quick else 2)]
     for wrap in ("init", "if", "arg", "index"):
         def want(v, wrap=wrap):
             if wrap == "init":
@@ -1339,12 +1353,16 @@ def run(rep):
     mark("evaluation")
     # ---------------- (5) disagreements: shrink, property oracle, report
     rep.coverage["disagreements"] = len(violations)
-    violations.sort(key=lambda v: (v[0] != "tree", len(str(v[1]))))
-    reported = 0
+    # trees first; among the evaluations a silently different value before a rejected program; small before large
+    violations.sort(key=lambda v: (v[0] != "tree", v[0] in ("eval", "effect") and (v[2].get("impl") or ["ERR"])[0] == "ERR", len(str(v[1]))))
+    reported, tried, seen_shrunk = 0, 0, set()
+    per_kind, cap = {}, {"tree": 3, "eval": 2, "effect": 1, "text": 2}      # a few of every kind of evidence
     for kind, obj, det in violations:
-        if reported >= 6:
+        if reported >= 8 or tried >= 30:
             break
-        reported += 1
+        if per_kind.get(kind, 0) >= cap.get(kind, 2):
+            continue
+        tried += 1
         if kind in ("tree", "eval", "effect") and not isinstance(obj, str):
             t = obj
             if kind == "tree":
@@ -1352,6 +1370,11 @@ def run(rep):
                 dd = tree_disagrees(impl, [t])[0] or det
             else:
                 dd = det
+            if (kind, sx(t)) in seen_shrunk:      # many disagreements shrink to the same tree: report each once
+                continue
+            seen_shrunk.add((kind, sx(t)))
+            reported += 1
+            per_kind[kind] = per_kind.get(kind, 0) + 1
             bad, text, payload = property_oracle(impl, seed, t)
             payload.update({"tree": sx(t), "kind": kind, "first_seen": det,
                             "broken": "correspondence Model.parse = real parser (carrier of every C02 theorem)", "shrunk": dd})
@@ -1361,6 +1384,8 @@ def run(rep):
             rep.violation("corr", payload, ("real parser and proved model disagree on `%s`: %s" % (
                 dd.get("text", det.get("text", "")), text)) if kind == "tree" else text, no_failing_input=not bad)
         else:
+            reported += 1
+            per_kind[kind] = per_kind.get(kind, 0) + 1
             rep.violation("corr-text", {"text": det["text"], "model": det["model"], "impl": det["impl"], "kind": kind,
                                         "broken": "correspondence Model.parse = real parser on a mutated token stream"},
                           "real parser and proved model disagree on the token stream `%s` (model %s, parser %s)" % (
